@@ -555,7 +555,9 @@ Qed.
 (* `fr_loop` OUTSIDE the class of C03_fr_loop_fuel_suffices (finite space): with an infinite space to fill and a track `fr(0)` the
    hypothetical fr size is inf in every round, `0 * inf` is NaN, both disjuncts of the validity test compare with NaN and are false:
    no round is valid, the `loop` of find_size_of_fr is never left with ANY fuel (the model returns the flag `false` after
-   length + 2 rounds).  Status on the implementation: notes/FUEL.md ("fr_loop off-class"). *)
+   length + 2 rounds).  REPRODUCED on the implementation (notes/FUEL.fr0inf.rs, run under `timeout 5`): a grid container with
+   `size.width = length(INFINITY)`, `grid_template_columns: [fr(0.0)]` and one 50x20 child does not return from compute_layout (with
+   fr(1.0) it returns inf x 20).  Not an input the style generators produce; proposed as a known finding under C03 (notes/FUEL.md). *)
 Definition C03_ex_fr0_track : list (TV.Model.GridTracks.track TV.Num.QNum.XQ) :=
   let z := TV.Num.QNum.Fin 0%Q in
   [ TV.Model.GridTracks.mk_track TV.Model.GridTracks.KTrack false TV.Model.GridTracks.SAuto (TV.Model.GridTracks.SFr z) z z z z z z false ].
